@@ -25,6 +25,8 @@ func init() {
 			"(environmental, noted in DESIGN.md); timing of the spam loop.",
 		Run: runC13,
 		Mutants: []Mutant{
+			{Name: "shared-address-exit-before-removal", File: "internal/layer2/announcer.go",
+				Old: "\t\tif len(advs) == 1 {\n\t\t\tdelete(a.ips, name)", New: "\t\tif a.ipRefcnt[cur.ip.String()] > 1 {\n\t\t\ta.ipRefcnt[cur.ip.String()]--\n\t\t\treturn true\n\t\t}\n\t\tif len(advs) == 1 {\n\t\t\tdelete(a.ips, name)", Expect: "REFCOUNT"},
 			{Name: "answer-arp-replies-too", File: "internal/layer2/arp.go",
 				Old: "\tif pkt.Operation != arp.OperationRequest {\n\t\treturn dropReasonARPReply\n\t}\n", New: "", Expect: "REPLY-GUARDS"},
 			{Name: "refcount-on-override-path", File: "internal/layer2/announcer.go",
@@ -357,6 +359,19 @@ func c13Refcount(p *chk.Prog, r *chk.Report) {
 					x.Check("DeleteBalancerIP:unwatch-only-last-user", c.Pos(), g.Dominated(c, g.GPat(false, "RECV.ipRefcnt[C.ip.String()] > 0", chk.H("C", cur))), "", "the NDP group is left while another service still uses the address")
 				}
 			}
+		}
+		// whoever is told "withdrawn" (true) has had the advertisement removed from the service's list first: an early
+		// "another service still uses the address" exit must come after the removal, or the withdrawn service's
+		// advertisement - with its old interface selection - keeps answering, and a later DeleteBalancer counts it again
+		{
+			isRm := func(n ast.Node) bool {
+				return di.ContainsPat("delete(RECV.ips, N)", chk.H("N", name))(n) || di.IsAssignPat("RECV.ips[N]", "R", chk.H("N", name))(n)
+			}
+			w := g.MustPass(chk.Site{}, func(n ast.Node) bool {
+				rt, isRet := n.(*ast.ReturnStmt)
+				return isRet && len(rt.Results) == 1 && di.IsConstBool(rt.Results[0], true)
+			}, false, isRm)
+			x.Check("DeleteBalancerIP:true-means-removed", posOf(w, di), !w.Found, "", "DeleteBalancerIP can report the address withdrawn while the service's advertisement for it is still stored: "+describe(di, w))
 		}
 		x.Check("DeleteBalancerIP:removes-and-decrements-once", di.Pos(), ok, "", "withdrawing one address of a service does not remove exactly that advertisement and decrement its reference count once")
 	}
